@@ -185,7 +185,7 @@ func runC25(c *Ctx) {
 	must(eng.IngestRows(ctx, batch, nil))
 	must(eng.Flush(ctx))
 	defer func() {
-		sctx, cancel := context.WithTimeout(ctx, 20*time.Second)
+		sctx, cancel := context.WithTimeout(ctx, 120*time.Second)
 		eng.Stop(sctx)
 		cancel()
 	}()
